@@ -22,7 +22,7 @@ func init() {
 		Run:               runC16,
 		MinNonTrivial:     200,
 		MinEffectiveShare: 0.3,
-		RequiredEvents: map[string]int64{"entries_compared": 5000, "focus_present": 100, "focus_nsname": 100, "focus_shared": 30, "focus_absent": 50, "focus_nearname": 100,
+		RequiredEvents: map[string]int64{"entries_compared": 5000, "focus_present": 100, "focus_nsname": 100, "focus_shared": 30, "focus_absent": 50, "focus_nearname": 100, "real_workload_named_ingress_controller": 20,
 			"focus_ingress-controller": 50, "nothing_matches_cases": 100, "ingress_controller_lines_kept": 20, "focused_formats_parsed": 300},
 	})
 }
@@ -85,6 +85,7 @@ func runC16(c *run.Ctx) {
 		return
 	}
 	cfg := world.DefaultCfg()
+	cfg.KindTwins, cfg.SharedNames = 0.15, 0.1
 	cfg.NamedEgressIP = 0
 	if g.P(0.3) {
 		cfg.Kinds = world.AllWorkloadKinds
@@ -127,11 +128,21 @@ func runC16(c *run.Ctx) {
 		w.Workloads = append(w.Workloads, t1, t2, t3)
 		r.Feat("suffix_twins")
 	}
+	// a real workload may carry the very name of the synthetic ingress controller: focusing on it must keep both kinds of lines
+	realIC := len(w.Ingresses)+len(w.Routes) > 0 && g.P(0.2)
+	if realIC {
+		w.Workloads[g.Intn(len(w.Workloads))].Name = "ingress-controller"
+		r.Feat("real_workload_named_ingress_controller")
+		r.Ev("real_workload_named_ingress_controller", 1)
+	}
 	wl := rng.Pick(g, w.Workloads)
 	if twins && g.P(0.6) {
 		wl = w.Workloads[0]
 	}
 	class := rng.Pick(g, []string{"present", "present", "nsname", "nsname", "shared", "absent", "namespace", "prefix", "wrongns", "ingress-controller", "ingress-controller", "slash", "shared", "bareslash", "nearname", "nearname"})
+	if realIC && g.P(0.7) {
+		class = "ingress-controller"
+	}
 	focus := ""
 	switch class {
 	case "present":
@@ -322,4 +333,3 @@ func c16Judge(r *run.CaseResult, dir, focus, class string, hasIngressObjects boo
 	}
 	return full, foc, want
 }
-
